@@ -204,9 +204,9 @@ void ppExGCD(word d[], word da[], word db[], const word a[], size_t n,
 	}
 	while (!wwIsZero(u, nu));
 	// d <- v
-	wwCopy(d, v, m);
+	wwCopy(d, v, mv);
 	// d <- d * 2^s
-	wwShHi(d, W_OF_B(wwBitSize(d, m) + s), s);
+	wwShHi(d, W_OF_B(wwBitSize(d, mv) + s), s);
 	// очистка
 	s = 0;
 }
